@@ -7,4 +7,4 @@ NOT_APPLICABLE = {}
 NOT_YET = "check not built yet in this session (planned in DESIGN.md section 4; generated-input search applies)"
 
 # properties whose check has been reviewed (quiet at several seeds, mutation-sensitive) and is registered in MANIFEST.json
-ENABLED = ["C01", "C06", "C07", "C08", "C12", "C13", "C19", "C20", "C38", "C43", "C49", "C54", "C56"]
+ENABLED = ["C01", "C06", "C07", "C08", "C09", "C12", "C13", "C16", "C18", "C19", "C20", "C22", "C25", "C38", "C43", "C49", "C52", "C54", "C56"]
